@@ -58,6 +58,7 @@ class Impl:
         self.store: Optional[ts_lib.TokenStore] = ts_lib.TokenStore()
         self.src_list = None
         self.src_copy = None
+        self.all_iter_pairs = False            # dump(): probe iter(a, b) for EVERY ordered pair of tokens (exhaustive part)
 
     def tid(self, tok) -> int:
         return -1 if tok is None else self.ids.get(id(tok), -99)
@@ -120,7 +121,12 @@ class Impl:
         # sub-range probes (any two tokens: in order, reversed, same, detached) for the model to answer
         iters = []
         n = len(self.toks) - 1
-        if n:
+        if n and self.all_iter_pairs:
+            for a in range(1, n + 1):
+                for b in range(1, n + 1):
+                    iters.append((a, b, self._enc(lambda: list(st.iter(self.toks[a], self.toks[b])),
+                                                  lambda v: [self.tid(t) for t in v])))
+        elif n:
             rr = random.Random(len(st) * 1000003 + n * 7919 + res)
             for _ in range(3):
                 a, b = rr.randrange(1, n + 1), rr.randrange(1, n + 1)
@@ -399,34 +405,40 @@ def gen_directed_breaks(rng: random.Random, lf: int):
     return texts, ops
 
 
-def run_history(lf: int, texts: list[str], ops: list) -> tuple[list[tuple[Any, dict]], list[dict]]:
-    """Runs on the implementation; returns (steps with dumps, monitor failures)."""
+def run_history(lf: int, texts: list[str], ops: list, all_iters_at=None) -> tuple[list[tuple[Any, dict]], list[dict]]:
+    """Runs on the implementation; returns (steps with dumps, monitor failures).
+    all_iters_at: step numbers after which iter(a, b) is probed for EVERY ordered pair of tokens (dumped for the
+    model to answer, and compared with the plain list here) instead of three seeded pairs."""
     impl = Impl(lf, texts, eq_tokens=use_eq_tokens(lf, texts, ops))
     steps = []
     fails: list[dict] = []
     ref: list[int] = []                      # plain list reference (C07 monitor)
+    elsewhere: set[int] = set()              # tokens sitting in a store this history has since replaced by a new one
     txt = {i + 1: t for i, t in enumerate(texts)}
     for n, op in enumerate(ops):
         before_ids = [impl.tid(t) for t in impl.store] if impl.store is not None else []
         before_objs = list(impl.store)
         res = impl.apply(op)
+        impl.all_iter_pairs = all_iters_at is not None and n in all_iters_at
         d = impl.dump(res)
         steps.append((op, d))
         # ---- reference semantics
         exp_err = False
         k = op[0]
         if k == 'empty':
+            elsewhere |= set(ref)
             ref = []
         elif k == 'from_tokens':
-            if len(set(op[1])) != len(op[1]) or any(t in ref for t in op[1]):
+            if len(set(op[1])) != len(op[1]) or any(t in ref or t in elsewhere for t in op[1]):
                 exp_err = True                          # listed twice / already in a store: no new store
             else:
+                elsewhere |= set(ref)
                 ref = list(op[1])
         elif k in ('ins_after', 'ins_before'):
             r_, new = op[1], op[2]
             if r_ is not None and r_ not in ref:
                 exp_err = True
-            elif any(t in ref for t in new) or len(set(new)) != len(new):
+            elif any(t in ref or t in elsewhere for t in new) or len(set(new)) != len(new):
                 exp_err = True
             else:
                 i = 0 if r_ is None else ref.index(r_) + (1 if k == 'ins_after' else 0)
@@ -438,9 +450,9 @@ def run_history(lf: int, texts: list[str], ops: list) -> tuple[list[tuple[Any, d
             else:
                 i = 0 if a is None else ref.index(a)
                 j = i if b is None else ref.index(b) + 1
-                if j < i or len(set(new)) != len(new):
-                    exp_err = True                      # reversed range / a token listed twice
-                elif any(t in ref and not (i <= ref.index(t) < j) for t in new):
+                if j < i or (b is not None and ref.index(b) < i) or len(set(new)) != len(new):
+                    exp_err = True                      # reversed range (del_end before ref, also directly before) / a token listed twice
+                elif any(t in elsewhere or (t in ref and not (i <= ref.index(t) < j)) for t in new):
                     exp_err = True
                 else:
                     ref[i:j] = new
@@ -451,19 +463,21 @@ def run_history(lf: int, texts: list[str], ops: list) -> tuple[list[tuple[Any, d
             else:
                 i = ref.index(a)
                 j = ref.index(b if b is not None else a) + 1
-                if j < i:
-                    exp_err = True                      # reversed range
+                if j <= i:
+                    exp_err = True                      # reversed range (the last token comes before the first, also directly before)
                 else:
                     del ref[i:j]
         elif k == 'replace':
             # splice([r], t, t): r must be free or t itself (C07_replace_refines allows r = t: no change)
-            if op[1] not in ref or (op[2] in ref and op[2] != op[1]):
+            if op[1] not in ref or (op[2] in ref and op[2] != op[1]) or op[2] in elsewhere:
                 exp_err = True
             else:
                 ref[ref.index(op[1])] = op[2]
         elif k == 'set_text':
             txt[op[1]] = op[2]
         where = {'lf': lf, 'texts': texts, 'ops': ops[:n + 1], 'step': n}
+        if impl.all_iter_pairs:
+            where['all_iters'] = True                   # replay probes every pair after every step
         if exp_err != (res != 0):
             fails.append({'sig': 'C07:refusal-mismatch', 'what': f'op {op} returned code {res}, list reference '
                           f'{"refuses" if exp_err else "accepts"} it', 'where': where})
@@ -542,7 +556,13 @@ def run_history(lf: int, texts: list[str], ops: list) -> tuple[list[tuple[Any, d
                     if not (0 <= h[1] < len(blk.tokens)) or blk.tokens[h[1]] is not impl.toks[t]:
                         bad = ('C07:handle', f'token {t}: handle {h} does not point at it')
             else:
-                if h is not None:
+                if t in elsewhere:
+                    # it sits in a store this history has replaced: its handle is that store's business, not this one's
+                    if h is not None and h[0] != -1:
+                        bad = ('C07:detached', f'token {t} of an earlier store has a handle {h} into this one')
+                    elif o[0] != 1:
+                        bad = ('C07:detached', f'get_index of token {t} of an earlier store returned {o[:2]}')
+                elif h is not None:
                     bad = ('C07:detached', f'token {t} is not in the store but has handle {h}')
                 elif o[0] != 1:
                     bad = ('C07:detached', f'get_index of detached token {t} returned {o[:2]}')
@@ -564,6 +584,19 @@ def run_history(lf: int, texts: list[str], ops: list) -> tuple[list[tuple[Any, d
                     fails.append({'sig': 'C02:other-text', 'what': f'{op}: token {t} text is {impl.toks[t].raw_text!r}, '
                                   f'expected {txt[t]!r}', 'where': where})
                     break
+        # ---- sub-range iteration (C07): every ordered pair of tokens, when asked for
+        if impl.all_iter_pairs:
+            for a, b, r in d['iters']:
+                if a in ref and b in ref:
+                    exp = [0] + ref[ref.index(a):ref.index(b) + 1]
+                else:
+                    exp = [1, EXN_CODE['ValueError']]
+                if r != exp:
+                    fails.append({'sig': 'C07:iter-range', 'what': f'after {op}: iter({a},{b}) = {r} (0 :: ids | 1, exception '
+                                  f'code), the list says {exp}', 'where': where})
+                    break
+            if fails:
+                break
         # ---- sub-range iteration (C07)
         if ref:
             rr = random.Random(n * 7919 + len(ref))
